@@ -9,6 +9,9 @@
 #include "sim/sim.h"
 #include <string>
 #include <vector>
+#include <cmath>
+#include <cstdio>
+#include <algorithm>
 
 namespace ioev {
 
@@ -231,6 +234,85 @@ inline std::string build(const Plan& plan, int* n_events = nullptr, std::string*
   }
   if (!plan.geti("noclose", 0)) { while (!stack.empty()) { d += "</" + stack.back() + ">\n"; stack.pop_back(); } d += c.suffix; }
   if (n_events) *n_events = n;
+  return d;
+}
+
+
+// ------------------------------------------------- synthetic g3 models -----
+// Grammar-derived documents for gama-g3 (header `synth g3`): a consistent small GNSS / terrestrial network around
+// (50 N, 14 E) described by steps, so that every observation kind the parser knows (vector, xyz, distance, zenith,
+// azimuth, hdiff, height, angle) occurs, between declared points with and without coordinates and undeclared ones.
+//   gs status mask            <fixed|free|constr|unused> with a subset of <n/><e/><u/>  (status of the points that follow)
+//   gp id coords extra        <point>: coords 0 none, 1 b l h, 2 x y z; extra: <height>, own status element
+//   go kind from to third v   one <obs> cluster with one observation (and sometimes its <cov-mat>)
+struct G3Pt { double b, l, h, x, y, z; };
+inline G3Pt g3_point(int i)
+{
+  const double PI = 3.14159265358979323846, a = 6378137.0, f = 1 / 298.257223563, e2 = f * (2 - f);
+  G3Pt p; p.b = 50 + 0.011 * i + 0.003 * (i % 3); p.l = 14 + 0.013 * i - 0.004 * (i % 2); p.h = 300 + 7.5 * i;
+  double B = p.b * PI / 180, L = p.l * PI / 180, N = a / std::sqrt(1 - e2 * std::sin(B) * std::sin(B));
+  p.x = (N + p.h) * std::cos(B) * std::cos(L); p.y = (N + p.h) * std::cos(B) * std::sin(L); p.z = (N * (1 - e2) + p.h) * std::sin(B);
+  return p;
+}
+
+inline std::string build_g3(const Plan& plan, int* n_steps = nullptr, std::string* shape = nullptr)
+{
+  const double PI = 3.14159265358979323846;
+  static const char* ID[] = {"A", "B", "C", "D", "E", "F", "G", "H"};
+  static const char* ST[] = {"fixed", "free", "constr", "unused"};
+  std::string d = "<?xml version=\"1.0\" ?>\n<gnu-gama-data xmlns=\"http://www.gnu.org/software/gama/gnu-gama-data\">\n<g3-model>\n"
+                  "<constants>\n<apriori-standard-deviation>10</apriori-standard-deviation>\n<confidence-level>0.95</confidence-level>\n<angular-units-gons/>\n<ellipsoid><id>wgs84</id></ellipsoid>\n</constants>\n";
+  auto num = [](double v, int prec) { char b[64]; snprintf(b, sizeof b, "%.*f", prec, v); return std::string(b); };
+  auto neu = [](long long mask) { std::string s; if (mask & 1) s += "<n/>"; if (mask & 2) s += "<e/>"; if (mask & 4) s += "<u/>"; return s; };
+  int n = 0; if (shape) *shape = "g3syn:";
+  for (const Step& s : plan.steps) {
+    if (s.op == "gs") {
+      d += std::string("<") + ST[s.arg(0) % 4] + ">" + neu(s.arg(1) % 8) + "</" + ST[s.arg(0) % 4] + ">\n"; n++;
+      if (shape) *shape += fmt("s%lld%lld,", s.arg(0) % 4, s.arg(1) % 8);
+    } else if (s.op == "gp") {
+      int i = (int)(s.arg(0) % 8); G3Pt p = g3_point(i); long long c = s.arg(1) % 3, ex = s.arg(2) % 8;
+      d += std::string("<point><id>") + ID[i] + "</id>";
+      auto dms = [](double deg) { int dd = (int)deg; double r = (deg - dd) * 60; int mm = (int)r; double ss = (r - mm) * 60; char b[64]; snprintf(b, sizeof b, "%d-%02d-%09.6f", dd, mm, ss); return std::string(b); };
+      if (c == 1) d += "<b>" + dms(p.b) + "</b><l>" + dms(p.l) + "</l><h>" + num(p.h, 4) + "</h>";
+      if (c == 2) d += "<x>" + num(p.x, 4) + "</x><y>" + num(p.y, 4) + "</y><z>" + num(p.z, 4) + "</z>";
+      if (ex == 1) d += "<height>" + num(p.h + 0.5, 3) + "</height>";
+      if (ex == 2) d += "<geoid>0.5</geoid>";
+      if (ex >= 3 && ex <= 6) d += std::string("<") + ST[ex - 3] + ">" + neu(1 + (s.arg(2) / 8) % 7) + "</" + ST[ex - 3] + ">";
+      d += "</point>\n"; n++;
+      if (shape) *shape += fmt("p%lld%lld,", c, ex);
+    } else if (s.op == "go") {
+      static const char* K[] = {"vector", "xyz", "distance", "zenith", "azimuth", "hdiff", "height", "angle"};
+      int k = (int)(s.arg(0) % 8), a = (int)(s.arg(1) % 8), b = (int)(s.arg(2) % 8), c = (int)(s.arg(3) % 8); long long v = s.arg(4);
+      G3Pt A = g3_point(a), B = g3_point(b), C = g3_point(c);
+      double e = 0.001 * (double)(v % 7 - 3);                        // a few millimetres of "measurement error"
+      double dx = B.x - A.x, dy = B.y - A.y, dz = B.z - A.z, dist = std::sqrt(dx * dx + dy * dy + dz * dz);
+      double sb = std::sin(A.b * PI / 180), cb = std::cos(A.b * PI / 180), sl = std::sin(A.l * PI / 180), cl = std::cos(A.l * PI / 180);
+      auto azi = [&](const G3Pt& T) { double x = T.x - A.x, y = T.y - A.y, z = T.z - A.z; double nn = -sb * cl * x - sb * sl * y + cb * z, ee = -sl * x + cl * y; double r = std::atan2(ee, nn); if (r < 0) r += 2 * PI; return r; };
+      double up = cb * cl * dx + cb * sl * dy + sb * dz, zen = dist > 0 ? std::acos(std::max(-1.0, std::min(1.0, up / dist))) : 0;
+      std::string opt;
+      if ((v / 7) % 4 != 3) opt += "<stdev>5</stdev>";
+      if ((v / 28) % 5 == 1) opt += "<from-dh>1.5</from-dh>";
+      if ((v / 140) % 5 == 1) opt += "<to-dh>1.2</to-dh>";
+      std::string o = "<obs>\n";
+      switch (k) {
+        case 0: o += std::string("<vector><from>") + ID[a] + "</from><to>" + ID[b] + "</to><dx>" + num(dx + e, 4) + "</dx><dy>" + num(dy - e, 4) + "</dy><dz>" + num(dz + e, 4) + "</dz></vector>\n"
+                     "<cov-mat><dim>3</dim><band>0</band><flt>0.4</flt><flt>0.2</flt><flt>0.5</flt></cov-mat>\n"; break;
+        case 1: o += std::string("<xyz><id>") + ID[a] + "</id><x>" + num(A.x + e, 4) + "</x><y>" + num(A.y, 4) + "</y><z>" + num(A.z - e, 4) + "</z></xyz>\n"
+                     "<cov-mat><dim>3</dim><band>0</band><flt>0.1</flt><flt>0.1</flt><flt>0.1</flt></cov-mat>\n"; break;
+        case 2: o += std::string("<distance><from>") + ID[a] + "</from><to>" + ID[b] + "</to><val>" + num(dist + e, 4) + "</val>" + opt + "</distance>\n"; break;
+        case 3: o += std::string("<zenith><from>") + ID[a] + "</from><to>" + ID[b] + "</to><val>" + num(zen * 200 / PI, 6) + "</val>" + opt + "</zenith>\n"; break;
+        case 4: o += std::string("<azimuth><from>") + ID[a] + "</from><to>" + ID[b] + "</to><val>" + num(azi(B) * 200 / PI, 6) + "</val>" + opt + "</azimuth>\n"; break;
+        case 5: o += std::string("<hdiff><from>") + ID[a] + "</from><to>" + ID[b] + "</to><val>" + num(B.h - A.h + e, 4) + "</val>" + ((v / 7) % 4 != 3 ? "<stdev>5</stdev>" : "") + "</hdiff>\n"; break;
+        case 6: o += std::string("<height><id>") + ID[a] + "</id><val>" + num(A.h + e, 4) + "</val>" + ((v / 7) % 4 != 3 ? "<stdev>5</stdev>" : "") + "</height>\n"; break;
+        default: { double an = azi(C) - azi(B); if (an < 0) an += 2 * PI;
+                 o += std::string("<angle><from>") + ID[a] + "</from><left>" + ID[b] + "</left><right>" + ID[c] + "</right><val>" + num(an * 200 / PI, 6) + "</val>" + ((v / 7) % 4 != 3 ? "<stdev>5</stdev>" : "") + "</angle>\n"; }
+      }
+      d += o + "</obs>\n"; n++;
+      if (shape) *shape += fmt("o%d,", k);
+    }
+  }
+  d += "</g3-model>\n</gnu-gama-data>\n";
+  if (n_steps) *n_steps = n;
   return d;
 }
 
